@@ -154,7 +154,7 @@ def get_parities_from_measurements(
 
     # Count number of occurrences of bitstrings
     bitstring_frequencies = Counter(measurements)
-    bitstrings_vector = np.array([*bitstring_frequencies.keys()])
+    bitstrings_vector = np.array([*bitstring_frequencies.keys()], dtype=int)
     bitstring_counts: np.ndarray = np.fromiter(
         bitstring_frequencies.values(), dtype=int
     )
